@@ -234,7 +234,24 @@ class SimFS:
         raw = path
         if not path.startswith('/'):
             path = self.cwd + '/' + path
-        n = os.path.normpath(path)
+        if '/../' in path + '/':
+            # POSIX resolves `link/..` physically (parent of the link's TARGET); only a purely textual API such as
+            # os.path.abspath / normpath collapses it without looking
+            cur = ''
+            for comp in path.split('/'):
+                if comp in ('', '.'):
+                    continue
+                if comp == '..':
+                    try:
+                        cur = self.resolve(cur or '/')
+                    except OSError:
+                        pass
+                    cur = os.path.dirname(cur) if cur not in ('', '/') else ''
+                else:
+                    cur = cur + '/' + comp
+            n = cur or '/'
+        else:
+            n = os.path.normpath(path)
         if (raw.endswith('/') or raw.endswith('/.')) and n != '/':
             # a trailing slash demands a directory
             try:
